@@ -9,6 +9,7 @@ from .. import relang as R
 from ..spec import pat as P, den as D
 from .. import langcheck as LC
 from . import trees
+from . import globrun
 from .globrun import with_alarm, CaseTimeout
 
 if REPO not in sys.path:
@@ -243,10 +244,11 @@ def pathlib_views(item):
         ents = t.entries()
         for txt, flags in cases:
             follow = bool(flags & PL.L)
-            if cyclic and (follow or flags & PL.GL):
+            if cyclic and (follow or (flags & PL.GL and '***' in txt)):
                 continue
             base = dict(tree=tname, pattern=txt, flags=flags, fl=LC.flagnames(flags))
             bad = []
+            tok = globrun.begin_alarm(3 * globrun.CASE_SECONDS)
             try:
                 root = PL.Path(t.root)
                 for sub in ('', 'd'):
@@ -303,6 +305,8 @@ def pathlib_views(item):
             except Exception:
                 os.chdir(cwd0)
                 out.append(dict(base, error=traceback.format_exc()[-900:]))
+            finally:
+                globrun.end_alarm(tok)
         # error clauses (once per tree)
         bad = []
         try:
